@@ -215,6 +215,31 @@ def gen_scenario(rng):
     return "scn %s %d %d %d %s" % (tr, 1 if bw else 0, lim, ep, " ".join(ops)), g.failing
 
 
+def bulk_family(rng=None):
+    """(a) Hundreds of cached replies (confirmable requests of the peer, each answered) that all expire together: ONE housekeeping
+    tick after the exchange lifetime leaves none.  (b) A block-wise notification of a live observation (the remaining blocks are
+    fetched by a GET under a token of its own): when its last block has been delivered the reassembly buffer is gone at once, not
+    only after a sweep."""
+    out = []
+    n = 300 if rng is None else rng.choice([129, 200, 257, 300])
+    out += [
+        "scn udp 0 0 0 reqs:1:%d settle sleep:300000 tick settle" % n,
+        "scn udp 1 0 0 reqs:1:%d do:1:1:a:con:0:0 resp:1:pig:69:4:- sleep:100000 reqs:1000:%d sleep:301000 tick settle" % (n // 2, n),
+        "scn udp 0 0 0 reqs:1:%d sleep:100000 tick reqs:1:%d sleep:300000 tick settle" % (n, n),
+    ]
+    for tr, first, kind in (("udp", "pig", "non"), ("tcp", "x", "x")):
+        seq = 5 if rng is None else rng.randrange(2, 90)
+        out += [
+            "scn %s 1 0 0 obs:1:o:0 resp:1:%s:69:4:1 resp:1:%s:69:40:%d nblk:1:1 nblk:2:0 settle resp:1:%s:69:4:%d settle"
+            % (tr, first, kind, seq, kind, seq + 1),
+            "scn %s 1 0 0 obs:1:o:0 resp:1:%s:69:4:1 resp:1:%s:69:40:%d nblk:1:1 nblk:2:0 resp:1:%s:69:40:%d nblk:1:1 nblk:2:0 obscancel:1 resp:1:%s:69:4:- settle"
+            % (tr, first, kind, seq, kind, seq + 1, first),
+            "scn %s 1 0 0 obs:1:o:0 resp:1:%s:69:4:1 do:2:2:a:con:0:0 resp:1:%s:69:40:%d nblk:1:1 resp:2:%s:69:4:- nblk:2:0 settle"
+            % (tr, first, kind, seq, first),
+        ]
+    return out
+
+
 def nstart_family(rng=None):
     """NSTART exhausted by an unanswered confirmable request; further confirmable requests / one-way writes queue for the slot and
     end while they are queued (deadline, cancellation, close) or get the slot later.  Nothing of a request that ended while it
@@ -280,7 +305,9 @@ def corpus_lines():
 
 def gen_lines(ctx):
     rng = random.Random(ctx.seed * 104729 + 13)
-    L = [(l, 1) for l in corpus_lines() + FIXED + nstart_family()]
+    L = [(l, 1) for l in corpus_lines() + FIXED + nstart_family() + bulk_family()]
+    for _ in range(10 if ctx.tier == "thorough" else 1):
+        L += [(l, 1) for l in bulk_family(rng)]
     for _ in range(30 if ctx.tier == "thorough" else 4):
         L += [(l, 1) for l in nstart_family(rng)]
     for _ in range(8000 if ctx.tier == "thorough" else 1200):
